@@ -84,7 +84,13 @@ SPEC = {
         "earlier_files_unaffected", "sourceLine_eq_lineAround", "writeMessage_located", "writeMessage_unlocated",
         "message_render_shift", "boundary_preserved", "trivia_insensitive", "trivia_insensitive_rejected", "toy_lexesAs", "toy_adjacent",
         "toy_distant", "angle_bracket_not_closed", "macro_call_gap_inline_insensitive",
-        "macro_call_gap_linebreak_witness", "macro_call_gap_insensitive_if_fixed", "empty_argument_linebreak_witness"]],
+        "macro_call_gap_linebreak_witness", "macro_call_gap_insensitive_if_fixed", "empty_argument_linebreak_witness",
+        "trivia_insensitive_if", "trivia_insensitive_rejected_if", "trivia_lexers_as_modelled",
+        "trivia_insensitive_lexer", "trivia_insensitive_lexer_rejected", "lexer_failure_moves",
+        "lexer_side_conditions_needed", "preprocess_trivia_insensitive_partial"]] + [
+        # the lemma the lexer theorem rests on (Lemmas/LexStableTok.lean) and the three facts about the concrete lexer
+        "RsslVerif.Lemmas.LexStable.tokenIntermediate_stable", "RsslVerif.Lemmas.TriviaLexer.triviaText_lexesAs",
+        "RsslVerif.Lemmas.TriviaLexer.adjacent", "RsslVerif.Lemmas.TriviaLexer.distant"],
     "harness": "c14",
     "nontrivial": nontrivial,
     "finding_key": finding_key,
